@@ -7,7 +7,8 @@ grammar — each carve-out is either a vendor convention (another mode prints ex
 region of a listed known finding (then `finding` names it)."""
 
 HOST = r"[A-Za-z0-9][A-Za-z0-9_.\-]"          # followed by {0,n}
-SUB = r"[a-z0-9][a-z0-9\-]"                   # configuration sub-mode name, followed by {0,n}
+SUB = r"[a-z0-9][a-z0-9\-+_.]"                # configuration sub-mode name (config-sg-tacacs+, config-if-range, ...), followed by {0,n}
+SUBXR = r"[a-z0-9][a-z0-9\-_.]"               # IOS-XR sub-mode names: no + in that platform's decoration class
 HOSTU = r"[A-Za-z0-9][A-Za-z0-9_.\-]*"        # host name of any length (bounded by a `len` conjunct)
 JUSER = r"[a-z][a-z0-9_\-]*"                  # Junos login name of any length
 
@@ -56,7 +57,7 @@ def _platforms():
             "trail": "",
             "modes": {
                 "privilege_exec": {"line": r"RP/0/RP[01]/CPU0:" + host(48) + "#", "class": ["privilege_exec"]},
-                "configuration": {"line": r"RP/0/RP[01]/CPU0:" + host(48) + r"\(config(-" + SUB + r"{0,24})?\)#",
+                "configuration": {"line": r"RP/0/RP[01]/CPU0:" + host(48) + r"\(config(-" + SUBXR + r"{0,24})?\)#",
                                   "class": ["configuration", "configuration_exclusive"]},
             },
         },
